@@ -53,6 +53,11 @@ def run(ctx):
             p["tiny"] = True
             p.pop("feed", None)
         t3.append(D.run_nndvi(p, D.nndvi_history(rng, nb, equal_sizes=(i % 4 == 0), some_even=bool(p.get("halves"))), seed=rng.randrange(10 ** 6)))
+    for i in range(8 if q else 60):
+        # k_nn larger than the number of rows of some batches (and of some references, once such a batch has been adopted)
+        k = rng.choice([8, 10])
+        p = {"k_nn": k, "sampling_times": rng.choice([40, 80]), "alpha": rng.choice([0.01, 0.05, 0.2])}
+        t3.append(D.run_nndvi(p, D.nndvi_history_wide(rng, nb, k), seed=rng.randrange(10 ** 6)))
     ctx.validate("NNSP", t3, "NNDVI batch histories (unequal batch sizes)", sabotage=D.sabotage,
                  replay=lambda i: {"mode": "nndvi", "params": t3[i]["params"], "script": t3[i]["script"], "seed": t3[i]["seed"]},
                  nontrivial=lambda t: any(e["state"] == "drift" for e in t["ev"]))
